@@ -92,7 +92,8 @@ def part_spec_validation(ctx, pairs):
     import eth_abi
     exprs, meta = [], []
     have_gen = (COQ / "C06" / "GenAbiSizes.vo").exists()
-    imports = A.IMPORTS + ("From Verif Require Import C06.GenAbiSizes.\n" if have_gen else "")
+    imports = A.IMPORTS + "From Verif Require Import C06.ZeroPad C06.Venc.\n" + \
+        ("From Verif Require Import C06.GenAbiSizes.\n" if have_gen else "")
     for t, vals in pairs:
         ct = A.coq_ty(t)
         g = (f"; g_size_bound t; g_static_size t; (if g_is_dynamic t then 1 else 0); g_embedded_static_size t; "
@@ -103,7 +104,9 @@ def part_spec_validation(ctx, pairs):
         for v in vals:
             exprs.append(f"let t := {ct} in let v := {A.coq_val(t, v)} in "
                          f"[(if in_type t v then 1 else 0); (match dec t (enc t v) with Some v' => 1 | None => 0 end); "
-                         f"zlen (enc t v)]")
+                         f"zlen (enc t v); "
+                         f"(if list_eqb (run_enc (venc_l (fun _ => repeat 238 70) t v) 255 4096) (enc t v) then 1 else 0); "
+                         f"(if list_eqb (run_enc (venc_v t v) 171 4096) (enc t v) then 1 else 0)]")
             meta.append(("val", t, v))
     from vlib import coqrun
     outs = coqrun.eval_zlists(imports, exprs, "c06sizes", shard=40)
@@ -128,6 +131,9 @@ def part_spec_validation(ctx, pairs):
         e = encs[ei]
         ei += 1
         n += 1
+        if o[3:5] != [1, 1]:
+            report(ctx, "correspondence-broken", "executable encoder model (Venc.v) does not produce enc on dirty memory",
+                   {"type": A.eth_ty(t), "value": repr(v), "legacy_model_ok": o[3], "venom_model_ok": o[4]}, "venc-exec")
         if o[0] != 1 or o[1] != 1 or o[2] != len(e):
             report(ctx, "correspondence-broken", "generator produced ill-typed value or model roundtrip failed",
                    {"type": A.eth_ty(t), "value": repr(v), "flags": o}, "illtyped")
@@ -314,6 +320,47 @@ def part_zero_pad_template(ctx):
     return ok, got
 
 
+ENCODER_PINS = [
+    ("vyper.codegen.abi_encoder", "abi_encode", "75fa4c7260d726db"),
+    ("vyper.codegen.abi_encoder", "_encode_child_helper", "8aba6dcbc9452408"),
+    ("vyper.codegen.abi_encoder", "_encode_dyn_array_helper", "083a986fb8adf333"),
+    ("vyper.codegen.abi_encoder", "abi_encoding_matches_vyper", "b71b246bcaad67f0"),
+    ("vyper.codegen_venom.abi.abi_encoder", "_abi_encode_to_buf", "353f24bc3cd3345c"),
+    ("vyper.codegen_venom.abi.abi_encoder", "_encode_child", "a4a4c2c5ad199400"),
+    ("vyper.codegen_venom.abi.abi_encoder", "_encode_dyn_array", "5708f80fb9d4d9c0"),
+    ("vyper.codegen_venom.abi.abi_encoder", "_pre_zero_pad", "6ee90b34d479ed81"),
+    ("vyper.codegen.core", "zero_pad", "8d9c9c47fb082f79"),
+    ("vyper.codegen.core", "mzero", "bba676506b7c9cb2"),
+]
+
+
+def part_encoder_structure(ctx):
+    """Tie of the structural models in coq/C06/Venc.v: (1) the functions they transcribe are pinned by AST hash;
+    (2) the real legacy child-encoding template for a dynamic child is observed and must show the modelled order:
+    offset word first, copy of up to 32+maxlen source bytes (the `junk` of wbytes_legacy), zero pad, ceil32 length."""
+    import re
+
+    from vlib import c06_pins
+    bad = c06_pins.check(ENCODER_PINS)
+    from vyper.codegen.abi_encoder import _encode_child_helper
+    from vyper.codegen.ir_node import IRnode
+    from vyper.compiler.settings import Settings, anchor_settings
+    from vyper.evm.address_space import MEMORY
+    from vyper.semantics.types import BytesT
+    with anchor_settings(Settings(evm_version="cancun")):
+        child = IRnode.from_list("child", typ=BytesT(5), location=MEMORY)
+        r = _encode_child_helper("buf", child, 32, "dyn_ofst", None)
+    got = " ".join(re.sub(r"/\*.*?\*/", "", " ".join(repr(x) for x in r)).replace("'", "").split())
+    exp = ("seq [mstore, [add, buf, 32], dyn_ofst] [set, dyn_ofst, [add, dyn_ofst, [with, dst, [add, buf, dyn_ofst], "
+           "[seq, [mcopy, dst, child, 37], [with, len, [mload, dst], [with, dst, [add, [add, dst, 32], len], "
+           "[calldatacopy, dst, calldatasize, [mod, [sub, 0, len], 32]]]], [ceil32, [add, 32, [mload, dst]]]]]]]")
+    norm = lambda x: re.sub(r"[\s,\[\]]+", " ", x).strip()  # noqa
+    ctx.extra["legacy_child_template"] = got
+    if norm(got) != norm(exp):
+        bad.append(("legacy _encode_child_helper template (Bytes[5] child)", got, exp))
+    return bad
+
+
 # ------------------------------------------------------------------ replay
 def do_replay(ctx):
     """re-execute exactly the recorded case on the current /repo tree and report whether it still fails"""
@@ -358,7 +405,7 @@ def run(ctx):
         (COQ / "C06" / "GenAbiSizes.v").write_text(G.generate(REPO / "vyper" / "abi_types.py", REPO / "vyper" / "utils.py"))
     except G.Unsupported as e:
         gen_err = str(e)
-    static = ["C06/Abi.v", "C06/AbiLemmas.v", "C06/Roundtrip.v", "C06/ZeroPad.v"]
+    static = ["C06/Abi.v", "C06/AbiLemmas.v", "C06/Roundtrip.v", "C06/ZeroPad.v", "C06/Venc.v", "C06/VencProofs.v"]
     b = {"ok": False, "file": "C06/GenAbiSizes.v", "failed_lemma": None, "out": gen_err}
     if gen_err is None:
         # static files are shared with C05/C12/C19 (coq/STATIC): rebuilt only when stale, so that a concurrently
@@ -370,7 +417,7 @@ def run(ctx):
     import time
     t0 = time.time()
     ctx.log(f"coq build done ({time.time() - ctx.t0:.1f}s since start)")
-    pairs = make_pairs(ctx, 26 if quick else 150, 3 if quick else 4)
+    pairs = make_pairs(ctx, 22 if quick else 150, 3 if quick else 4)
     n_spec = part_spec_validation(ctx, pairs)
     ctx.log(f"spec/size validation: {time.time() - t0:.1f}s")
     t0 = time.time()
@@ -386,6 +433,7 @@ def run(ctx):
     n_reason = part_reasons(ctx, C.quick_configs() if quick else cfgs)
     ctx.log(f"reasons: {time.time() - t0:.1f}s")
     zp_ok, zp = part_zero_pad_template(ctx)
+    struct_bad = part_encoder_structure(ctx)
     found = any(v["kind"] == "failing-input" for v in ctx.violations) or ctx.known_hits
     # ---- verdicts for broken ties / proofs (after Search = the exits + size oracle above)
     if gen_err is not None:
@@ -400,6 +448,10 @@ def run(ctx):
             ctx.violation("correspondence-broken", "spec size functions disagree with real ABIType (no encoding exceeds the bound)",
                           {"type": A.eth_ty(t), "spec": got, "real": real})
             break
+    for name, got, exp in struct_bad:
+        ctx.violation("correspondence-broken", f"encoder source no longer matches the structural model (Venc.v): {name}",
+                      {"function": name, "observed": got, "pinned": exp,
+                       "search": "five exits ran on this tree" + ("; failing inputs reported above" if found else "; no failing input")})
     if not zp_ok:
         ctx.violation("correspondence-broken", "core.zero_pad / venom _pre_zero_pad no longer match the templates modelled in ZeroPad.v",
                       {"observed": zp})
